@@ -20,6 +20,7 @@ import MW.Lemmas.LedgerDepositEx
 import MW.Lemmas.TxmgrCodecRec
 import MW.Model.WithdrawSeq
 import MW.Lemmas.WithdrawSeq
+import MW.Lemmas.SignSeq
 namespace MW.Props.C10
 open MW MW.Model.Ledger MW.Spec.Chain MW.Spec.Books MW.Lemmas.Ledger
 open MW.Model.WithdrawSeq MW.Model.ScriptVM MW.Lemmas.ScriptVMMain MW.Lemmas.WithdrawSeq
@@ -251,6 +252,26 @@ theorem binding_old_withdrawable {c : Ctx} {s : Store} {chain : List Block} (H :
 -- `ClsHeightOK cls h` is the consensus fact used as hypothesis: frozen period + 1 < 2^32
 -- (wire.IsValidFrozenPeriod), a 22-byte binding target only at heights ≥ MASSIP0002WarmUpHeight, a 20-byte one
 -- only below (checkParsePkScriptNew). Both binding directions are necessary: `withdraw_sequence_needs_*`.
+
+-- ------------------------------------------------------------------ 6b. the chosen sequence and the signing engine (round 5)
+
+/-- the input `constructTxIn` / `addTxIn` build is SIGNABLE: its sequence number meets the rule the engine run of signWitnessTx
+    (the C03 script-VM model, `MW.Model.Sign.seqOk` = the VM's CSV rule: `MW.Props.C03.seq_rule_staking` / `seq_rule_massip2`)
+    enforces for the class of the previous output at its height – ScriptMASSip2 on (binding outputs at or above the warm-up
+    height: class `bind2`) and off –, for every template class and every lock time.  The MASSIP-2 branch is exercised on the
+    real code by runs with a lowered warm-up height (op `warmup`; the height is a value: `withdraw_sequence_warmup_value`). -/
+theorem withdraw_sequence_signable (lt : Nat) (c : Cls) (h : Nat) (hc : c ≠ .raw) (hf : ∀ f, c = .stk f → f + 1 < 2^32) :
+    Model.Sign.seqOk (Model.SignTab.classAt Gen.Vm.massip2WarmUpHeight c h) (seqChoice lt c h) = true :=
+  MW.Lemmas.SignSeq.seqChoice_signable lt c h hc hf
+
+/-- a run with the warm-up height lowered to `W` evaluates `seqChoice` (stated with the regenerated constant) at heights
+    translated by the difference: `EnforceMASSIP0002WarmUp` only compares the height with the constant -/
+theorem withdraw_sequence_warmup_value (W h : Nat) (hW : W ≤ Gen.Vm.massip2WarmUpHeight) :
+    enforceWarmUp (h + (Gen.Vm.massip2WarmUpHeight - W)) = decide (W ≤ h) :=
+  MW.Lemmas.SignSeq.enforceWarmUp_shift W h hW
+
+example : seqChoice 0 (.bindOld "") (6 + (Gen.Vm.massip2WarmUpHeight - 4)) = 4294967294 ∧
+    seqChoice 7 (.bindNew "") (3 + (Gen.Vm.massip2WarmUpHeight - 4)) = 2^64 - 2 ∧ (4 : Nat) ≤ Gen.Vm.massip2WarmUpHeight := by decide
 
 /-- tie B: the Go switch still has the modelled shape, and the constants the proofs rely on -/
 theorem gen_tie_seq_choice : Gen.Vm.seqChoiceShape = true ∧
